@@ -148,8 +148,8 @@ def one(task):
     return r
 
 
-def check_main():
-    run = Run("C03", "translation_validation")
+def check_main(prop="C03", conflicts=False):
+    run = Run(prop, "translation_validation")
     N = 6 if tier() == "quick" else 9
     files = [f for f in GL.select(P.corpus()) if read_par(f).is_lalr()]
     random.Random(seed()).shuffle(files)
@@ -158,6 +158,11 @@ def check_main():
     for a in arts:
         if a["rc"] != 0 or not a.get("parser") or not a.get("e"):
             skipped.append({"grammar": a["grammar"], "why": "rejected by parol / generation failed or timed out (rc=%s): %s" % (a["rc"], a["out"][-120:])})
+            continue
+        if bool(a.get("resolved_conflicts")) != conflicts:
+            # C03 quantifies over grammars accepted "without reporting any resolved conflict";
+            # C04's soundness half over those WITH reported resolved conflicts
+            skipped.append({"grammar": a["grammar"], "why": "parol reported %d resolved conflict(s)" % (a.get("resolved_conflicts") or 0)})
             continue
         nstates = open(a["parser"], encoding="utf-8").read().count("LR1State {")
         tasks.append({"grammar": a["grammar"], "parser": a["parser"], "e": a["e"], "N": (3 if nstates > 40 else N)})
@@ -181,6 +186,8 @@ def check_main():
         for name, d in lr.items():
             queries += 1
             tsolver += d.get("solver_s", 0)
+            if conflicts and name == "rejects_sentence":
+                continue    # a resolved conflict may legitimately drop sentences; only soundness is claimed
             if name == "bound_too_small":
                 if d["status"] != "unsat":
                     run.inconc("%s: LR unrolling bound too small or solver %s (witness %s)" % (r["grammar"], d["status"], d.get("witness")))
@@ -213,6 +220,8 @@ def check_main():
         "functions_in_loop": ["transformation::lr_augmentation::augment_grammar", "analysis::lalr1_parse_table::calculate_lalr1_parse_table (lalry)", "generators::parser_generator (LR tables)"],
         "explanation": "LR automaton of the generated PARSE_TABLE unrolled over symbolic tokens (6N+10 steps, stack depth 2N+6, both bounds checked by a third query) vs bounded derivability in the grammar as written; plus accessing-symbol consistency of every reduce action (each reduction is a derivation step)",
     })
+    if conflicts:
+        run.cov["explanation"] = "soundness half of C04 only: for every corpus grammar for which parol REPORTS resolved conflicts (shift over reduce, earlier production) the generated table, unrolled as an LR automaton over symbolic tokens, accepts no token string <= N that is not a sentence of the grammar as written. Whether every conflicting grammar is reported is NOT decided (it needs an independent LALR(1) construction)."
     run.assume("bounded: token strings of length <= %d; LALR corpus = repository + /verif/grammars grammars of type lalr(1); grammars whose generation exceeds the per-grammar time limit are skipped and listed" % N,
                "table construction 'completes without crashing' is observed natively on the corpus, not decided by the solver",
                "runtime side: LRParser::parse_into is not symbolically executed in this leg")
